@@ -4,6 +4,7 @@ import (
 	"fmt"
 	"go/token"
 	"go/types"
+	"slices"
 	"strings"
 
 	"golang.org/x/tools/go/ssa"
@@ -482,29 +483,119 @@ func C25(c *Ctx) {
 				c.Pass(r2, k, vk.Pos(), 2, "validated; not executable")
 			}
 		}
-		// rejecting default in validateRequestKeys: the all-false edge returns a non-nil error
-		kir := Calls(vk, false, Named("raftstore/store.keyInRange"))
-		c.Decide(len(kir) >= 7, r2, key(vk, "keyInRange-sites"), vk.Pos(), len(kir)+1, fmt.Sprintf("%d key checks", len(kir)), fmt.Sprintf("expected ≥7 keyInRange checks (one per command kind), found %d", len(kir)))
-		// each check's false result leads to an error return
-		for i, k := range kir {
-			g := false
-			for _, ref := range *k.Value().Referrers() {
-				if ifi, ok := ref.(*ssa.If); ok {
-					if returnsNonNilPtr(ifi.Block().Succs[1]) || returnsNonNilPtr(ifi.Block().Succs[0]) {
-						g = true
-					}
+		// the validation group: validateRequestKeys and the same-package helpers it hands keys to
+		isKIR := Named("raftstore/store.keyInRange")
+		grp := []*ssa.Function{vk}
+		for i := 0; i < len(grp) && len(grp) < 16; i++ {
+			for _, cs := range Calls(grp[i], true, func(*ssa.CallCommon) bool { return true }) {
+				cal := cs.Common().StaticCallee()
+				if cal == nil || cal.Blocks == nil || cal.Pkg != vk.Pkg || isKIR(cs.Common()) || slices.Contains(grp, cal) {
+					continue
 				}
-				if u, ok := ref.(*ssa.UnOp); ok && u.Op == token.NOT {
-					g = true
+				if len(Calls(cal, true, isKIR)) > 0 {
+					grp = append(grp, cal)
 				}
 			}
-			c.Decide(g, r2, key(vk, fmt.Sprintf("keyInRange[%d]→reject", i+1)), k.Pos(), 1, "out-of-range key rejects the command", "the result of keyInRange does not lead to a rejection")
 		}
-		// field coverage: getters of key fields called in vk
+		// a value (the result of a key-field getter) reaches the key argument of keyInRange:
+		// through range/index/phi/conversions and through parameters of the group's helpers
+		var reaches func(v ssa.Value, seen map[ssa.Value]bool) bool
+		reaches = func(v ssa.Value, seen map[ssa.Value]bool) bool {
+			if v == nil || seen[v] || v.Referrers() == nil {
+				return false
+			}
+			seen[v] = true
+			for _, ref := range *v.Referrers() {
+				switch r := ref.(type) {
+				case ssa.CallInstruction:
+					cc := r.Common()
+					if isKIR(cc) {
+						if len(cc.Args) > 1 && cc.Args[1] == v {
+							return true
+						}
+						continue
+					}
+					if cal := cc.StaticCallee(); cal != nil && slices.Contains(grp, cal) {
+						for i, a := range cc.Args {
+							if a == v && i < len(cal.Params) && reaches(cal.Params[i], seen) {
+								return true
+							}
+						}
+					}
+				case *ssa.Store:
+					if r.Val == v && reaches(r.Addr, seen) {
+						return true
+					}
+				case *ssa.Range, *ssa.Next, *ssa.Extract, *ssa.Index, *ssa.IndexAddr, *ssa.Phi, *ssa.Slice, *ssa.ChangeType, *ssa.Convert, *ssa.Lookup:
+					if reaches(r.(ssa.Value), seen) {
+						return true
+					}
+				case *ssa.UnOp:
+					if r.Op == token.MUL && reaches(r, seen) {
+						return true
+					}
+				}
+			}
+			return false
+		}
+		// the answer of a key check (or of a helper that performs key checks) leads to a rejection
+		var rejects func(v ssa.Value, depth int) bool
+		rejects = func(v ssa.Value, depth int) bool {
+			if v == nil || v.Referrers() == nil || depth > 4 {
+				return false
+			}
+			for _, ref := range *v.Referrers() {
+				switch r := ref.(type) {
+				case *ssa.If:
+					if returnsNonNilPtr(r.Block().Succs[1]) || returnsNonNilPtr(r.Block().Succs[0]) {
+						return true
+					}
+				case *ssa.UnOp:
+					if r.Op == token.NOT {
+						return true
+					}
+				case *ssa.BinOp:
+					if (r.Op == token.NEQ || r.Op == token.EQL) && rejects(r, depth+1) {
+						return true
+					}
+				case *ssa.Return:
+					return true
+				case *ssa.Phi:
+					if rejects(r, depth+1) {
+						return true
+					}
+				}
+			}
+			return false
+		}
+		var kir []ssa.CallInstruction
+		for _, f := range grp {
+			kir = append(kir, Calls(f, true, isKIR)...)
+		}
+		for i, k := range kir {
+			c.Decide(rejects(k.Value(), 0), r2, key(vk, fmt.Sprintf("keyInRange[%d]→reject", i+1)), k.Pos(), 1, "out-of-range key rejects the command", "the result of keyInRange does not lead to a rejection")
+		}
+		for _, h := range grp[1:] {
+			for i, cs := range c.P.CallersOf(h) {
+				if cs.Site == nil || !slices.Contains(grp, Root(cs.Caller)) || cs.Site.Value() == nil {
+					continue
+				}
+				c.Decide(rejects(cs.Site.Value(), 0), r2, key(vk, fmt.Sprintf("helper:%s[%d]→reject", h.Name(), i+1)), cs.Site.Pos(), 1, "a key the helper finds out of range rejects the command", "the answer of "+h.Name()+", which performs the key-range checks, is not turned into a rejection")
+			}
+		}
+		// field coverage: every key-bearing field of the request messages flows into a key check
 		wantGetters := []string{"(*pb.GetRequest).GetKey", "(*pb.ScanRequest).GetStartKey", "(*pb.Mutation).GetKey", "(*pb.CommitRequest).GetKeys",
 			"(*pb.BatchRollbackRequest).GetKeys", "(*pb.ResolveLockRequest).GetKeys", "(*pb.CheckTxnStatusRequest).GetPrimaryKey"}
 		for _, g := range wantGetters {
-			c.Decide(len(Calls(vk, false, Named(g))) >= 1, r2, key(vk, "reads:"+g), vk.Pos(), 1, "key field is range-checked", "key-bearing field accessor "+g+" is no longer consulted by validateRequestKeys")
+			ok := false
+			for _, f := range grp {
+				for _, gc := range Calls(f, true, Named(g)) {
+					if gc.Value() != nil && reaches(gc.Value(), map[ssa.Value]bool{}) {
+						ok = true
+					}
+				}
+			}
+			c.Decide(ok, r2, key(vk, "reads:"+g), vk.Pos(), 1, "key field flows into a keyInRange check", "the key-bearing field read by "+g+" no longer flows into a keyInRange check of validateRequestKeys")
 		}
 		// default arm rejects
 		c.Decide(rejectingDefault(vk, "pb.CmdType"), r2, key(vk, "default→reject"), vk.Pos(), 1, "unknown command kinds are rejected", "validateRequestKeys accepts command kinds it has no case for")
